@@ -34,8 +34,66 @@ def enum_items(seq):
             yield from enum_items(c["items"])
 
 
+def check_opcode_names(ctx, st):
+    """opc.names: the name reported together with an unknown / unexpected opcode (helper::<exp>::opcode_to_name) is the wowm
+    message that has this opcode in that expansion, and the table is the generator's opcode index"""
+    import os
+    import re
+    from ..common import REPO
+    g, P = st["g"], st["P"]
+    F = g.f("wow_world_messages")
+    n = 0
+    for exp in ("vanilla", "tbc", "wrath"):
+        fn = F.fn(f"crate::helper::{exp}::opcode_to_name::opcode_to_name")
+        if fn is None:
+            ctx.violate("opc.names", f"anchor|{exp}", f"helper::{exp}::opcode_to_name not found (anchor disappeared)")
+            continue
+        m = next((x for x in H.walk(fn["hir"]) if H.tag(x) == "match"), None)
+        table = {}
+        wild_none = False
+        for pat, guard, body in (m[3] if m else []):
+            b = H.strip(body)
+            if H.tag(pat) == "lit" and pat[1] == "int" and guard is None and H.tag(b) == "lit" and b[1] == "str":
+                v = int(pat[2])
+                if v in table:
+                    ctx.violate("opc.names", f"{exp}|dup|{v:#x}", f"opcode_to_name ({exp}): opcode {v:#x} listed twice", fn["file"], fn["line"])
+                table[v] = b[2]
+            elif H.tag(pat) == "wild":
+                wild_none = "None" in H.short(b, maxlen=200)
+            else:
+                ctx.violate("opc.names", f"{exp}|shape", f"opcode_to_name ({exp}): unrecognised arm {H.short(pat)} => {H.short(b, maxlen=60)}", fn["file"], fn["line"])
+        if not wild_none:
+            ctx.violate("opc.names", f"{exp}|wild", f"opcode_to_name ({exp}): unknown opcodes are not mapped to None", fn["file"], fn["line"])
+        want = {}
+        for p_ in P.pairs:
+            a = p_["obj"].ast
+            if p_["scope"] == exp and a.kind in ("cmsg", "smsg", "msg"):
+                nm = a.name
+                for suf in ("_Client", "_Server"):  # a message defined separately per direction under one opcode
+                    if nm.endswith(suf):
+                        nm = nm[: -len(suf)]
+                want.setdefault(a.opcode, set()).add(nm)
+        for op, names in sorted(want.items()):
+            n += 1
+            if table.get(op) not in names:
+                ctx.violate("opc.names", f"{exp}|{sorted(names)[0]}", f"opcode_to_name ({exp}): opcode {op:#x} is reported as {table.get(op)!r}, the wowm message with this opcode is {sorted(names)}", fn["file"], fn["line"])
+        idx_file = os.path.join(REPO, f"wow_message_parser/src/parser/stats/{exp}_messages.rs")
+        try:
+            idx = {int(v, 16): nm for nm, v in re.findall(r'Data::\w+\(\s*"(\w+)",\s*0x([0-9A-Fa-f]+),?\s*\)', open(idx_file).read())}
+        except OSError:
+            idx = None
+            ctx.violate("opc.names", f"anchor|{exp}|index", f"{idx_file} not found (anchor disappeared)")
+        if idx is not None:
+            for op in sorted(set(table) | set(idx)):
+                n += 1
+                if table.get(op) != idx.get(op):
+                    ctx.violate("opc.names", f"{exp}|index|{op:#x}", f"opcode_to_name ({exp}): opcode {op:#x} is {table.get(op)!r}, the generator's opcode index says {idx.get(op)!r}", fn["file"], fn["line"])
+    ctx.rule("opc.names", n, floor=4500, note="opcode_to_name arms vs the wowm messages of the expansion and vs the generator's opcode index")
+
+
 def run(ctx):
     st = state()
+    check_opcode_names(ctx, st)
     n_enum = 0
     n_guard = 0
     seen_fn = set()
